@@ -29,6 +29,9 @@ THEOREMS = _theorems()
 
 OUTCOMES = ['ret', 'exit', 'kbd', 'exc', 'excin']       # excin: raises inside a profiled function
 COQ_OUTCOME = dict(ret='Return', exit='SysExit', kbd='KbdInt', exc='Exc', excin='Exc')
+# ids of the four defects repaired in /repo (204c2e5, d567ae1, f436ae3, 2d3e878).  The classifier
+# still recognises their signatures so that a regression is named; they are 'fixed' in
+# known_findings.json, which suppresses nothing: any failing clause is a VIOLATION.
 FINDINGS = {
     1: 'C19-argv-rebound',
     2: 'C19-path-kept-on-exception',
@@ -140,14 +143,14 @@ def gen_cases(tier, rnd):
     for a, b2 in itertools.product(core_runs, repeat=2):
         rs = [make_run(x[0], x[1], x[2], False, x[3], 'sub', [], [], x[4], 0, 0, 0) for x in (a, b2)]
         cases.append(dict(kind='pairs', init=init0, runs=rs))
-    # 5. outside the property's quantifier (the caller rebound sys.argv / sys.path after kernprof was
-    #    imported): the model is still compared with the implementation, the property is not evaluated
+    # 5. the caller rebound sys.argv / sys.path after kernprof was imported (C19_restores covers these
+    #    states too; before f436ae3 they were outside what could hold)
     for ar, pr in [(True, False), (False, True), (True, True)]:
         for outcome in ('ret', 'exc'):
             for _ in range(4 if thorough else 1):
                 r = random_run(rnd)
                 r2 = make_run(r['l'], r['b'], r['m'], False, None, 'sub', [], ['a'], outcome, 1, 1, 0)
-                cases.append(dict(kind='model-only', init=dict(init0, argv_rebound=ar, path_rebound=pr), runs=[r2]))
+                cases.append(dict(kind='caller-rebound', init=dict(init0, argv_rebound=ar, path_rebound=pr), runs=[r2]))
     return cases
 
 
@@ -171,7 +174,7 @@ def py_bits(case, o):
 
 
 def current_path_prediction(case, o):
-    """sys.path as the *known* defect leaves it: entries inserted by runs that raised stay"""
+    """sys.path as the (repaired) no-finally defect left it: entries inserted by runs that raised stay"""
     path = list(o['before']['path'])
     for r, seen in zip(case['runs'], o['seen']):
         entry = list(path)
@@ -382,8 +385,10 @@ def run(tier, seed):
             bits |= coq_bits.get(i, 0)
             bit_hist[bits] = bit_hist.get(bits, 0) + 1
             res.spec_fails += fails_of(c, o, bits)
-        n_path_hyp = sum(1 for c, o in zip(cases, out) if c['kind'] != 'model-only' and not any(s['raised'] for s in o['seen']))
-        n_timer_hyp = sum(1 for c in cases if c['kind'] != 'model-only' and not any(r['interval'] > 0 for r in c['runs']))
+        n_raise = sum(1 for c, o in zip(cases, out) if c['kind'] != 'model-only' and any(s['raised'] for s in o['seen']))
+        n_timed = sum(1 for c in cases if c['kind'] != 'model-only' and any(r['interval'] > 0 for r in c['runs']))
+        n_stale = sum(1 for c, o in zip(cases, out) for r, s in zip(c['runs'], o['seen'])
+                      if s['raised'] and COQ_OUTCOME[r['outcome']] != 'Exc')
         res.coverage = dict(
             evaluations=len(cases), distinct_nontrivial=len(distinct),
             rule='every case is non-trivial (at least one real kernprof.main run that executes a generated program); distinct by '
@@ -394,20 +399,20 @@ def run(tier, seed):
                  'subdirectory / absolute, decided and undecided initial decorator',
             exhaustive=True, case_kinds=kinds, runs_per_case=lens, run_stats=stats, outcomes=outcomes,
             clause_failure_bits_histogram={str(k): v for k, v in sorted(bit_hist.items())},
-            hypothesis_holds_on=dict(partial_path_no_exception=n_path_hyp, partial_timers_no_interval=n_timer_hyp,
-                                     usable_initial_state=len(cases)),
+            hypothesis_holds_on=dict(usable_initial_state=len(cases), cases_where_main_raised=n_raise, cases_with_interval_timer=n_timed,
+                                     runs_raising_only_because_of_a_stale_builtin_profile=n_stale,
+                                     caller_rebound_argv_or_path=kinds.get('caller-rebound', 0)),
             samples=[dict(case=cases[i], impl=out[i]) for i in (0, len(cases) // 2)],
             translated=['line_profiler/explicit_profiler.py::GlobalProfiler._kernprof_overwrite, __call__ (+ the rest of Gen/GlobalProfiler.v)'],
             trusted_base_extra=[
                 'hand-modelled, tied by correspondence only: kernprof.main\'s effect skeleton, contextlib.contextmanager used as a decorator '
-                '(argument evaluated at import, no finally), RepeatedTimer start/stop, the profiler being switched off by wrappers / runctx',
+                '(lists looked up at call time, written back and re-bound in a finally), RepeatedTimer start/stop, the profiler being switched '
+                'off by wrappers / runctx',
                 'py2coq translation of _kernprof_overwrite / __call__ (validated by C14\'s tables and by the use-after-run observations here)',
                 'the driver restores the interpreter between cases itself (reset); cases are independent',
                 'os.path.dirname / abspath(curdir) of the script are computed by the harness and handed to the model',
                 'sys.gettrace / sys.getprofile / sys.monitoring.get_tool as the observation of "a profiler is enabled"'])
         res.assumptions = ['the profiled program does not itself rebind sys.argv / sys.path, start threads or leave a profiler enabled',
-                           'nobody rebinds sys.argv / sys.path between importing kernprof and the first call (cases that do are compared '
-                           'with the model but the property is not evaluated on them)',
                            'the explicit `from line_profiler import profile` decorator is exercised under -l / -b only (under plain cProfile '
                            'mode a nested enable raises on 3.12: C03)',
                            'option parsing itself (which tokens are kernprof\'s) is C15; here argument lists are simple']
